@@ -411,6 +411,8 @@ def run(ctx):
             fault = ('bom',)
         if ctx.opportunity('wrong_encoding_surrogate'):
             fault = ('surrogate',)
+        if ctx.opportunity('undecodable_huge_int_literal'):
+            fault = ('hugeint',)
     if n >= 2 and ctx.opportunity('io_error_while_reading'):
         fault = ('ioerror',)
     positions = sorted(set([0, 1, n // 3, n // 2, (2 * n) // 3, n - 1]) & set(range(0, max(n, 1))))
@@ -445,6 +447,11 @@ def run(ctx):
         elif fault[0] == 'surrogate':
             # a UTF-8-encoded lone surrogate inside a JSON string: not valid UTF-8
             body2 = b'["' + b'\xed\xa0\x80' + b'", ' + body1 + b']'
+            declared = len(body2)
+            ctx.probe('corrupted')
+        elif fault[0] == 'hugeint':
+            # well-formed JSON that the decoder refuses (CPython limits int literals to 4300 digits)
+            body2 = b'[' + b'7' * 4400 + b', ' + body1 + b']'
             declared = len(body2)
             ctx.probe('corrupted')
         elif fault[0] == 'ioerror':
